@@ -230,6 +230,46 @@ func guardsOf(i ssa.Instruction) []guardAtom {
 	return out
 }
 
+// normCond strips negations, and replaces a boolean variable that is assigned exactly once (ok := A; ... if ok,
+// also when a closure captured it) by the value assigned.
+func normCond(cond ssa.Value, pol bool) (ssa.Value, bool) {
+	for n := 0; n < 8; n++ {
+		if u, ok := cond.(*ssa.UnOp); ok && u.Op == token.NOT {
+			cond, pol = u.X, !pol
+			continue
+		}
+		if ld, ok := cond.(*ssa.UnOp); ok && ld.Op == token.MUL && isBoolType(ld.Type()) {
+			if cell := resolveCell(ld.X); cell != nil {
+				if stores := cellStores(cell); len(stores) == 1 && !cellEscapes(cell) {
+					cond = stores[0]
+					continue
+				}
+			}
+		}
+		break
+	}
+	return cond, pol
+}
+
+// cellEscapes: the variable's address is used for something other than loads, stores and closure capture.
+func cellEscapes(a *ssa.Alloc) bool {
+	if a.Referrers() == nil {
+		return false
+	}
+	for _, r := range *a.Referrers() {
+		switch x := r.(type) {
+		case *ssa.Store:
+			if x.Val == ssa.Value(a) {
+				return true
+			}
+		case *ssa.UnOp, *ssa.MakeClosure, *ssa.DebugRef:
+		default:
+			return true
+		}
+	}
+	return false
+}
+
 // guardsLocal: the guards of i inside its own function only.
 func guardsLocal(i ssa.Instruction) []guardAtom {
 	fn := i.Parent()
@@ -243,14 +283,7 @@ func guardsLocal(i ssa.Instruction) []guardAtom {
 			if len(s.Preds) != 1 || !s.Dominates(i.Block()) {
 				continue
 			}
-			cond, pol := ifi.Cond, si == 0
-			for {
-				if u, ok := cond.(*ssa.UnOp); ok && u.Op == token.NOT {
-					cond, pol = u.X, !pol
-					continue
-				}
-				break
-			}
+			cond, pol := normCond(ifi.Cond, si == 0)
 			out = append(out, guardAtom{cond, pol, ifi, si})
 			out = append(out, expandBoolPhi(cond, pol, ifi, si, 3)...)
 		}
@@ -312,13 +345,7 @@ func controlGuards(i ssa.Instruction) []guardAtom {
 		if cond == nil {
 			continue
 		}
-		for {
-			if u, ok := cond.(*ssa.UnOp); ok && u.Op == token.NOT {
-				cond, pol = u.X, !pol
-				continue
-			}
-			break
-		}
+		cond, pol = normCond(cond, pol)
 		out = append(out, guardAtom{cond, pol, br.Block.Instrs[len(br.Block.Instrs)-1], br.Succ})
 	}
 	if site := soleCaller(i.Parent()); site != nil {
